@@ -45,6 +45,12 @@ def gen(run):
         e = ("num", v) if v >= 0 else G.climb([("num", 0), "-", ("num", -v)])
         cases.append(mk_case([("push", e)], "unsized", N=32, v=v, kind="unsized"))
         cases.append(mk_case([("label", "z"), ("push", G.climb([("lbl", "z"), "+", e if v >= 0 else ("paren", e)]))], "unsized-label", N=32, v=v, kind="unsized"))
+    # %push whose value comes out of an expression macro (constant or label-dependent argument): the layout
+    # must size it like any other value
+    for v in (255, 256, 257, 65535, 65536, 2 ** 128, 2 ** 256 - 1, 2 ** 256):
+        cases.append(mk_case([("defe", "k", [], ("num", v)), ("push", ("macro", "k", []))], "unsized-emacro", N=32, v=v, kind="unsized"))
+        cases.append(mk_case([("defe", "k", ["x"], G.climb([("var", "x"), "+", ("num", v)])), ("label", "z"), ("push", ("macro", "k", [("lbl", "z")])), ("op", "jumpdest", None)],
+                             "unsized-emacro-label", N=32, v=v, kind="unsized"))
     for _ in range(60 if run.tier == "thorough" else 15):
         N = rng.randrange(1, 33)
         v = rng.choice([0, 1, 256 ** N - 1, 256 ** N, rng.getrandbits(8 * N), rng.getrandbits(8 * N + 3)])
